@@ -42,13 +42,14 @@ small_n = st.one_of(st.integers(2, 96), st.integers(17, 96), st.integers(33, 96)
 @st.composite
 def data_1d(draw, max_small=96, max_big=512, dtype="any"):
     """lengths are drawn here (not by gen.signal) so that N=1 stays a corner, not a fifth of the cases"""
-    if draw(st.integers(0, 7)) == 0:
+    if draw(st.integers(0, 7)) == 7:
         return draw(gen.signal(max_small + 1, max_big, dtype, kinds=("noise", "tones", "trend", "int", "dyn", "const")))
     n = min(draw(small_n), max_small)
     return draw(gen.signal(dtype=dtype, kinds=KINDS, n=n, explicit_max=16))
 
 
-window_name = st.sampled_from(NAMES)
+# an integer modulo 29 rather than sampled_from: spreads the names evenly (sampled_from clusters on a few)
+window_name = st.integers(0, 1000 * len(NAMES) - 1).map(lambda i: NAMES[i % len(NAMES)])
 
 
 def realise(case):
@@ -107,10 +108,10 @@ def compare(ctx, got, exp, msg, sig=None, rtol=1e-9, arel=1e-11):
 def one_d_case(draw, with_nextpow2):
     x = draw(data_1d())
     N = x["n"]
-    return {"x": x, "declare_complex": draw(st.integers(0, 5)) == 0, "window": draw(window_name),
+    return {"x": x, "declare_complex": draw(st.integers(0, 5)) == 5, "window": draw(window_name),
             "nfft": draw(gen.nfft_at_least(N, allow_none=True)) if with_nextpow2 else
             draw(st.one_of(gen.nfft_at_least(N), gen.nfft_at_least(N), gen.nfft_at_least(N), st.none())),
-            "as_list": draw(st.integers(0, 3)) == 0}
+            "as_list": draw(st.integers(0, 3)) == 3}
 
 
 def _setup(ctx, case):
@@ -207,7 +208,7 @@ def c01_parseval(ctx, case):
 def wk_case(draw):
     x = draw(data_1d(max_small=64, max_big=128))
     N = x["n"]
-    return {"x": x, "declare_complex": draw(st.integers(0, 5)) == 0,
+    return {"x": x, "declare_complex": draw(st.integers(0, 5)) == 5,
             "nfft": draw(gen.nfft_at_least(2 * N - 1)),
             "method": draw(st.sampled_from(["xcorr", "CORRELATION"])),
             "window": draw(st.sampled_from(["rectangular", "rectangle"]))}
